@@ -43,7 +43,15 @@ CheckHold(e) ==
   /\ Judge("C04", "NoPanic", e.first.t # "panic", e.first, "no panic")
   /\ Judge("C05", "DispatchIndependent", e.first.t = "ok" /\ e.first_after = e.first, <<e.type, e.first_after>>, e.first)
 
+\* every codec entry point refuses a message that is not 64 bytes long or does not start with the protocol id (0x17; 0x19
+\* for the status / event function 0x20 only)
+CheckFraming(e) ==
+  LET framed == e.len = 64 /\ (e.som = 23 \/ (e.som = 25 /\ e.code = 32)) IN
+  /\ Judge("C04", "NoPanic", e.out.t # "panic", <<e.entry, e.type, e.len, e.som, e.out>>, "no panic")
+  /\ Judge("C05", "FramingEnforced", framed \/ e.out.t = "err", <<e.entry, e.type, e.len, e.som, e.out.t>>, "err")
+
 Check(e) == CASE e.fn = "rt" -> CheckRT(e)
+              [] e.fn = "framing" -> CheckFraming(e)
               [] e.fn = "hold" -> CheckHold(e)
               [] e.fn = "dispatch" -> CheckDispatch(e)
               [] e.fn = "fuzz" -> CheckFuzz(e)
